@@ -31,6 +31,10 @@ ACTIVITIES = {
     "gevent_sleep": "import gevent\nchannel.send('started')\nwhile True:\n    gevent.sleep(0.05)\n",
     "gevent_busy": "channel.send('started')\nwhile True:\n    pass\n",
     "gevent_timesleep": "import time\nchannel.send('started')\ntime.sleep(100000)\n",
+    # a callback with endmarker that fails when the stream ends (here: when the initiator disappears)
+    "endmarker_raises": ("c = channel.gateway.newchannel()\nchannel.send(c)\n"
+                         "def cb(item):\n    if item is None:\n        raise ValueError('callback fails on its endmarker')\n"
+                         "c.setcallback(cb, endmarker=None)\nchannel.send('started')\nchannel.receive()\n"),
     "stopped": "channel.send('started')\nchannel.receive()\n",
     "killed": "channel.send('started')\nchannel.receive()\n",
 }
@@ -95,7 +99,11 @@ def main():
         if src is not None:
             ch = gws[g["id"]].remote_exec(src)
             chans.append(ch)
-            assert ch.receive(30) == "started"
+            first = ch.receive(30)
+            if act == "endmarker_raises":
+                chans.append(first)  # the sub-channel whose remote end carries the failing callback
+                first = ch.receive(30)
+            assert first == "started"
     # signals last: a stopped/killed master could not start its sub-gateways' activities any more
     for g in case["gateways"]:
         act = g.get("activity", "idle")
